@@ -70,12 +70,19 @@ def observe_run(app, recorder, tokens, as_string):
     return recorder.ids(), r.status, (type(r.raised).__name__ if r.raised is not None else None)
 
 
+class BuildFailed(Exception):
+    """the application of a well-formed generated tree could not be built"""
+
+
 def build(tree_json, kind):
     """-> (spec tree, app, recorder, {id(CommandConfig): node id})"""
     tree = G.Tree.from_json(tree_json)
     if kind == "default":
         tree = tree.with_builtin_help()
-    app, rec, cfgs = G.build_app(tree, kind, catch=False)
+    try:
+        app, rec, cfgs = G.build_app(tree, kind, catch=False)
+    except Exception as e:  # every generated tree is a valid configuration
+        raise BuildFailed("building the application of a well-formed tree raised %r" % (e,))
     return tree, app, rec, dict((id(c), nid) for nid, c in cfgs.items())
 
 
@@ -219,7 +226,12 @@ def bounded(ctx):
         else:
             base = G.random_tree(rng)
         kind = "default" if ti % 4 == 3 else "plain"
-        tree, app, rec, cfg_ids = build(base.to_json(), kind)
+        try:
+            tree, app, rec, cfg_ids = build(base.to_json(), kind)
+        except BuildFailed as e:
+            ctx.case([base.to_json(), 'build'], nontrivial=True)
+            rep.fail('build|valid-tree-rejected', str(e), {'tree': base.to_json(), 'kind': 'plain', 'tokens': [], 'as_string': False})
+            continue
         for li in range(n_lines):
             tokens = random_line(rng, tree)
             as_string = li % 2 == 1 and G.stringable(tokens)
@@ -245,7 +257,12 @@ def bounded(ctx):
     for ti, base in enumerate(G.small_trees()):
         if ti % stride:
             continue
-        tree, app, rec, cfg_ids = build(base.to_json(), "plain")
+        try:
+            tree, app, rec, cfg_ids = build(base.to_json(), "plain")
+        except BuildFailed as e:
+            ctx.case([base.to_json(), 'build'], nontrivial=True)
+            rep.fail('build|valid-tree-rejected', str(e), {'tree': base.to_json(), 'kind': 'plain', 'tokens': [], 'as_string': False})
+            continue
         for li, tokens in enumerate(SMALL_LINES):
             tokens = list(tokens)
             info, failure = judge(tree, app, rec, cfg_ids, "plain", tokens, False, with_run=(li + ti) % 4 == 0)
@@ -270,7 +287,12 @@ def bounded(ctx):
     for ti in range(n_trees):
         base = G.random_tree(rng, permissive=True)
         kind = "default" if ti % 4 == 3 else "plain"
-        tree, app, rec, cfg_ids = build(base.to_json(), kind)
+        try:
+            tree, app, rec, cfg_ids = build(base.to_json(), kind)
+        except BuildFailed as e:
+            ctx.case([base.to_json(), 'build'], nontrivial=True)
+            rep.fail('build|valid-tree-rejected', str(e), {'tree': base.to_json(), 'kind': 'plain', 'tokens': [], 'as_string': False})
+            continue
         words = tree_words(tree)
         nodes = [n for n in tree.walk_nodes() if not n.builtin]
         for _ in range(12):
@@ -336,7 +358,10 @@ def bounded(ctx):
 # ------------------------------------------------------------------------------ replay
 def replay_bounded(check_id, failure):
     w = failure.get("witness") or {}
-    tree, app, rec, cfg_ids = build(w["tree"], w["kind"])
+    try:
+        tree, app, rec, cfg_ids = build(w["tree"], w["kind"])
+    except BuildFailed as e:
+        return {"fails": True, "detail": str(e)}
     if "base" in w:
         b = observe_resolve(app, cfg_ids, w["kind"], w["base"], False)
         o = observe_resolve(app, cfg_ids, w["kind"], w["tokens"], False)
